@@ -202,6 +202,7 @@ void parallel_quick_sort( RandomAccessIterator begin, RandomAccessIterator end, 
                  auto_partitioner(),
                  my_context);
 
+    __TBB_VERIF_POINT(vp_sort_pretest, &my_context, 0);
     if( my_context.is_group_execution_cancelled() )
         do_parallel_quick_sort(begin, end, comp);
 }
